@@ -7,7 +7,7 @@
    is the ghost monitor s_lapped = false. *)
 From MV Require Import C02.Model C02.ProofsBase C02.ProofsCtl C02.ProofsFun C02.ProofsFunStep
   C02.ProofsTop C02.ProofsEx C02.ProofsView C02.ProofsViewStep C02.ProofsVis C02.ProofsOnce
-  C02.ProofsThrottle gen.Params_C02.
+  C02.ProofsThrottle C02.ProofsParam gen.Params_C02.
 Local Open Scope Z_scope.
 
 (* the flag -> mode decision of muggle_ring_buffer_get_mode, as computed by the code on this run,
@@ -135,3 +135,37 @@ Proof.
   - intros Hm Hk. exact (rb_read_returns_ith c sched t k Hwf Hm Hl Hk).
 Qed.
 Print Assumptions rb_throttled_read_and_visibility.
+
+(* MESSAGE VALUES.  Messages are opaque pointer values for the ring.  In the model a scenario
+   assigns to message id the value c_val id (any function: NULL, (void* )-1, small integers,
+   addresses inside the ring, repeated values, ...); the model moves the identities and never
+   inspects the values.  All theorems above are stated for every scenario, hence for every value
+   assignment; the delivered value of a read is c_val (t_got k).  Parametricity: running the same
+   schedule with the values mapped by ANY function f gives the same program points, counts,
+   written / read-once histories, cursor and precondition monitor, and every reader receives the
+   f-image of what it received before. *)
+Theorem ring_delivery_value_independent : forall c f sched t k,
+  let s := exec sys (step code_params) (init c) sched in
+  let s' := exec sys (step code_params) (init (set_val c f)) sched in
+  t_pc (s_thr s' t) = t_pc (s_thr s t) /\ t_cnt (s_thr s' t) = t_cnt (s_thr s t) /\
+  c_val (s_cfg s') (t_got (s_thr s' t) k) = f (t_got (s_thr s t) k) /\
+  s_nw s' = s_nw s /\ s_wr s' = s_wr s /\ s_nt s' = s_nt s /\ s_once s' = s_once s /\
+  s_lapped s' = s_lapped s /\ s_cursor s' = s_cursor s.
+Proof. exact (ring_delivery_value_independent_all code_params). Qed.
+Print Assumptions ring_delivery_value_independent.
+
+(* ... and the same operations in the same order (labels up to the values in the harness notes) *)
+Theorem ring_trace_value_independent : forall c f sched,
+  map (fun e => (fst e, erase (snd e))) (trace sys (step code_params) (init c) sched) =
+  map (fun e => (fst e, erase (snd e))) (trace sys (step code_params) (init (set_val c f)) sched).
+Proof. intros c f sched. exact (proj2 (value_independent_exec code_params c f sched)). Qed.
+Print Assumptions ring_trace_value_independent.
+
+(* additional obligation from a source scan of ring_buffer.c on this run (lib/props/c02.py
+   scan_payload_comparisons; a heuristic, not a proof): the code nowhere compares a message value
+   (x->data, a local assigned from it, the data argument) with anything - which is the C-side
+   counterpart of the parametricity above and what makes testing the correspondence on a few
+   special values meaningful *)
+Theorem rb_code_never_compares_payload : code_payload_comparisons = 0%nat.
+Proof. reflexivity. Qed.
+Print Assumptions rb_code_never_compares_payload.
